@@ -279,12 +279,17 @@ TEXTS_LAST = [b"", b"", b"", b"/c", b"y", b"b", b"/q/r"]
 TYPES = [b"", b"", b"", b":i", b"::i", b":s:", b"::T:F", b":", b":f:i"]
 
 
-def rand_num(rng):
+def rand_num(rng, is_sub=True):
+    """N of an enumeration: small, two digits, three digits (zynaddsubfx has #128 arrays); a leaf may have N = 0"""
     r = rng.random()
-    if r < 0.8:
+    if r < 0.76:
         return rng.randint(1, 3)
-    if r < 0.92:
+    if r < 0.88:
         return rng.randint(10, 12)
+    if r < 0.93:
+        return rng.choice([100, 101, 128, 130])
+    if r < 0.95 and not is_sub:
+        return 0
     return rng.choice([4, 5, 1, 1])
 
 
@@ -304,7 +309,7 @@ def rand_name(rng, is_sub, heads_used, messy, stats):
     parts = []
     big = False
     for k in range(nparts):
-        n = rand_num(rng)
+        n = rand_num(rng, is_sub)
         if n >= 10:
             if big:
                 n = 2
@@ -365,10 +370,13 @@ def make_buffer(rng, prefix, room, stats):
     return prefix + b"\0" + junk
 
 
+SPARE = 32
+
+
 def gen_static(rng, tier, stats):
-    st = stats.setdefault("static", {"trees": 0, "messy": 0, "exact_size": 0, "empty_prefix": 0, "k1_trees": 0,
-                                     "ranges": 0, "no_expand": 0, "depth_hist": {}, "calls_hist": {}})
-    ntrees = 9000 if tier == "quick" else 120000
+    st = stats.setdefault("static", {"trees": 0, "messy": 0, "empty_prefix": 0, "k1_trees": 0, "three_digit_trees": 0,
+                                     "depth_hist": {}, "calls_hist": {}})
+    ntrees = 8000 if tier == "quick" else 110000
     for _ in range(ntrees):
         depth = rng.choice([1, 2, 2, 3, 3, 4])
         messy = rng.random() < 0.2
@@ -378,49 +386,25 @@ def gen_static(rng, tier, stats):
         prefix = rng.choice(PREFIXES)
         eff = prefix or b"/"
         nd = need(tree)
-        r = rng.random()
-        flags = "10" if r < 0.9 else ("11" if r < 0.95 else "00")
-        exact = flags == "10" and rng.random() < 0.5
-        room = nd if exact else nd + rng.randint(1, 40)
-        if flags != "10":
-            room += 64                       # "[0,N-1]" is longer than any index; the need is about the default options
+        # the block: the longest address, its terminator and at least 32 spare bytes (walk_ports_recurse0 asserts
+        # that much in debug builds; how much more than the longest address is needed is not part of the statement)
+        room = nd + SPARE + rng.randint(0, 40)
         buf = make_buffer(rng, prefix, room, st)
         ncalls = len(enumerate_tree(tree, eff, (), expand_first))
         st["trees"] += 1
         st["messy"] += messy
-        st["exact_size"] += exact
         st["empty_prefix"] += not prefix
         st["k1_trees"] += multi_hash_leaf(tree)
-        st["ranges"] += flags == "11"
-        st["no_expand"] += flags == "00"
+        st["three_digit_trees"] += bool(re.search(r"23(3\d){3}", show_tree(tree)))
         st["depth_hist"][str(depth)] = st["depth_hist"].get(str(depth), 0) + 1
         b = str(min(ncalls, 512).bit_length())
         st["calls_hist"]["<2^" + b] = st["calls_hist"].get("<2^" + b, 0) + 1
-        yield "W %s %s %s" % (show_tree(tree), hx(buf), flags)
-
-
-MALFORMED_SUB = [b"a#2", b"a#3/b#2/c", b"#2/", b"a#0/", b"a#2#3/", b"a:#2/", b"a#/", b"a#2/#3/", b"a", b"a#x/", b"#/",
-                 b"a# 2/", b"a#+2/", b"a#02/", b"a/:i#2", b"a#1/::i", b"a##2/"]
-MALFORMED_LEAF = [b"x#0", b"x#", b"x#a", b"x##2", b"x#2#2", b"x:#2", b"#2", b"x#02y", b"x# 2", b"x#2:i#3", b"x#1"]
-
-
-def gen_malformed(rng, tier, stats):
-    st = stats.setdefault("malformed", {"cases": 0})
-    n = 600 if tier == "quick" else 8000
-    for _ in range(n):
-        leaf = Port(rng.choice(MALFORMED_LEAF + [b"x", b"y#2"]), None, None)
-        rows = [Port(rng.choice(MALFORMED_SUB), None, [leaf, Port(b"z", None, None)])]
-        if rng.random() < 0.5:
-            rows.append(Port(rng.choice(MALFORMED_LEAF), None, None))
-        rng.shuffle(rows)
-        prefix = rng.choice([b"", b"/", b"/p/"])
-        buf = prefix + bytes(96)
-        st["cases"] += 1
-        yield "W %s %s %s" % (show_tree(rows), hx(buf), rng.choice(["10", "10", "11", "00"]))
+        yield "W %s %s 10" % (show_tree(tree), hx(buf))
 
 
 # ------------------------------------------------------------------ generator: runtime
 _COMPILED = None
+NTREES = 4
 
 
 def compiled_trees():
@@ -432,13 +416,13 @@ def compiled_trees():
         os.makedirs(vlib.BUILD, exist_ok=True)
         fn = os.path.join(vlib.BUILD, "c09-trees-%d.ops" % os.getpid())
         with open(fn, "w") as f:
-            f.write("T 0\nT 1\nT 2\n")
+            f.write("".join("T %d\n" % i for i in range(NTREES)))
         try:
             out = subprocess.run([exe, fn], stdout=subprocess.PIPE, stderr=subprocess.PIPE, text=True, env=vlib.HENV).stdout
         finally:
             os.remove(fn)
         _COMPILED = [l[2:] for l in out.split("\n") if l.startswith("T [")]
-        assert len(_COMPILED) == 3, out
+        assert len(_COMPILED) == NTREES, out
     return _COMPILED
 
 
@@ -465,14 +449,36 @@ def lit(name):
     return name.split(b":")[0]
 
 
-def rand_obj(rng, table, stats):
-    """random runtime object for a table: (toggles, kids)"""
+def guard_names(table, acc=None):
+    """last components of all "enabled by" values of the tree"""
+    acc = set() if acc is None else acc
+    for p in table:
+        g = meta_entries(p.meta).get(b"enabled by")
+        if g is not None:
+            acc.add(g.split(b"/")[-1])
+        if p.sub is not None:
+            guard_names(p.sub, acc)
+    return acc
+
+
+INT_ANSWERS = [0, 0, 0, 1, 1, 2, 256, -1, -2147483648, 2147483647]
+
+
+def rand_obj(rng, table, stats, guards=None):
+    """random runtime object for a table: (answers, kids); an answer is ('b', 0|1) for a toggle and ('i', n) for an
+    integer parameter that some "enabled by" names"""
+    if guards is None:
+        guards = guard_names(table)
     tog = {}
     kids = {}
     for p in table:
         if p.sub is None:
-            if b"T" in p.name.partition(b":")[2]:
-                tog[lit(p.name)] = rng.random() < 0.7
+            ty = p.name.partition(b":")[2]
+            if b"T" in ty:
+                tog[lit(p.name)] = ("b", int(rng.random() < 0.7))
+            elif b"i" in ty and lit(p.name) in guards and b"#" not in p.name:
+                tog[lit(p.name)] = ("i", rng.choice(INT_ANSWERS))
+                stats["int_guards"] = stats.get("int_guards", 0) + 1
         else:
             w = parse_name(p.name)
             pointer = meta_entries(p.meta).get(b"documentation") == b"pointer"
@@ -482,14 +488,18 @@ def rand_obj(rng, table, stats):
                     kids[rel] = None
                     stats["null_pointers"] = stats.get("null_pointers", 0) + 1
                 else:
-                    kids[rel] = rand_obj(rng, p.sub, stats)
-    stats["toggles_off"] = stats.get("toggles_off", 0) + sum(1 for v in tog.values() if not v)
+                    kids[rel] = rand_obj(rng, p.sub, stats, guards)
+    stats["toggles_off"] = stats.get("toggles_off", 0) + sum(1 for v in tog.values() if not v[1])
     return (tog, kids)
+
+
+def show_ans(v):
+    return "i%d" % v[1] if v[0] == "i" else "%d" % v[1]
 
 
 def show_obj(o):
     tog, kids = o
-    t = ",".join("%s=%d" % (hx(k), v) for k, v in tog.items()) or "-"
+    t = ",".join("%s=%s" % (hx(k), show_ans(v)) for k, v in tog.items()) or "-"
     k = ",".join("%s=%s" % (hx(r), "N" if c is None else show_obj(c)) for r, c in kids.items()) or "-"
     return "{%s|%s}" % (t, k)
 
@@ -505,8 +515,13 @@ def parse_obj(s):
         else:
             while True:
                 j = s.index("=", i)
-                tog[unhx(s[i:j])] = s[j + 1] == "1"
-                i = j + 2
+                if s[j + 1] == "i":
+                    m = re.match(r"-?\d+", s[j + 2:j + 16])
+                    tog[unhx(s[i:j])] = ("i", int(m.group(0)))
+                    i = j + 2 + m.end()
+                else:
+                    tog[unhx(s[i:j])] = ("b", int(s[j + 1] == "1"))
+                    i = j + 2
                 if s[i] == ",":
                     i += 1
                     continue
@@ -536,6 +551,12 @@ def parse_obj(s):
     return o
 
 
+def answers_true(tog, name):
+    """an "enabled by" port answers true: T, or an integer other than 0"""
+    v = tog.get(name)
+    return v is not None and v[1] != 0
+
+
 def table_index(table, key):
     """Ports::operator[]"""
     for i, p in enumerate(table):
@@ -545,21 +566,23 @@ def table_index(table, key):
 
 
 def pruned(table, obj, pre, path=()):
-    """the pruning clause: NULL object or false toggle => skipped, an enabling toggle inside a table that switches
-    itself off is still reported"""
+    """the pruning clause -> (must, open): `must` = every leaf under every concrete address outside the sub-trees
+    whose object is NULL or whose "enabled by" port answers false; `open` = the enabling ports that sit inside the
+    table they switch off: the statement says that table is skipped, ports.cpp reports the toggle nevertheless
+    ("an enabling port must always be traversed") - reporting it or not is left open here"""
     tog, kids = obj
     si = table_index(table, b"self:")
     if si is not None:
         g = meta_entries(table[si].meta).get(b"enabled by")
-        if g is not None and not tog.get(g, False):
+        if g is not None and not answers_true(tog, g):
             k = table_index(table, g)
-            return [(path + (k,), pre + g)]
-    out = []
+            return [], [(path + (k,), pre + g)]
+    must, opn = [], []
     for i, p in enumerate(table):
         w = parse_name(p.name)
         if p.sub is None:
             for a in expand(w.parts):
-                out.append((path + (i,), pre + w.head + a + (b"/" if w.slash else b"")))
+                must.append((path + (i,), pre + w.head + a + (b"/" if w.slash else b"")))
         else:
             g = meta_entries(p.meta).get(b"enabled by")
             for a in expand(w.parts):
@@ -568,36 +591,77 @@ def pruned(table, obj, pre, path=()):
                 if kid is None:
                     continue
                 if g is not None and b"/" in g:
-                    # the toggle is a row of the sub-tree's own table: asked on the sub-tree's object; if it
-                    # answers false the toggle itself is still reported
+                    # the toggle is a row of the sub-tree's own table: asked on the sub-tree's object
                     t = g.split(b"/", 1)[1]
-                    if not kid[0].get(t, False):
-                        out.append((path + (i, table_index(p.sub, t)), pre + rel + t))
+                    if not answers_true(kid[0], t):
+                        opn.append((path + (i, table_index(p.sub, t)), pre + rel + t))
                         continue
-                elif g is not None and not tog.get(g, False):
+                elif g is not None and not answers_true(tog, g):
                     continue
-                out += pruned(p.sub, kid, pre + rel, path + (i,))
-    return out
+                m2, o2 = pruned(p.sub, kid, pre + rel, path + (i,))
+                must += m2
+                opn += o2
+    return must, opn
+
+
+def pair_key(ix, addr):
+    return "%s:%s" % (ixs(ix), hx(addr))
+
+
+def is_flat(table):
+    return all(p.sub is None for p in table)
 
 
 def gen_runtime(rng, tier, stats):
-    st = stats.setdefault("runtime", {"cases": 0, "per_tree": {}, "self_disabled_root": 0})
+    st = stats.setdefault("runtime", {"cases": 0, "per_tree": {}, "long_prefix": 0, "tight_size": 0, "open_reports": 0})
     trees = compiled_trees()
-    n = 3000 if tier == "quick" else 40000
+    tables = [parse_tree(ts) for ts in trees]
+    needs = [need(t) for t in tables]
+    n = 2600 if tier == "quick" else 36000
     for _ in range(n):
-        tid = rng.choice([0, 0, 0, 1, 1, 2])
-        ts = trees[tid]
-        table = parse_tree(ts)
+        tid = rng.choice([0, 0, 0, 1, 1, 1, 2, 2, 3, 3])
+        ts, table = trees[tid], tables[tid]
         obj = rand_obj(rng, table, st)
-        prefix = rng.choice([b"", b"/", b"/zz/"])
-        buf = prefix + bytes(200)
+        r = rng.random()
+        if r < 0.15:
+            # the table sits deep in an application: addresses of 250..990 characters (walk_ports_recurse works on a
+            # copy in char[1024])
+            total = rng.choice([250, 256, 257, 300, 511, 512, 700, 900, 985 - needs[tid], rng.randint(250, 985 - needs[tid])])
+            comps = []
+            left = total - 1
+            while left > 0:
+                k = min(left - 1, rng.randint(1, 60))
+                comps.append(bytes(rng.choice(b"abcxyz_-") for _ in range(k)) + b"/")
+                left -= k + 1
+            prefix = b"/" + b"".join(comps)
+            st["long_prefix"] += 1
+        else:
+            prefix = rng.choice([b"", b"/", b"/zz/", b"/a0/b/"])
+        eff = prefix or b"/"
+        must, opn = pruned(table, obj, eff)
+        buf = make_buffer(rng, prefix, needs[tid] + SPARE + rng.randint(0, 40), st)
+        toks = []
+        # buffer_size: the size of the block, or less.  A tree with sub-tree ports keeps 32 spare bytes
+        # (walk_ports_recurse0 asserts that much in debug builds), a flat table needs no more than the longest
+        # address it reports and its terminator
+        r = rng.random()
+        if r < 0.5:
+            longest = max([len(a) for _, a in must + opn] + [len(eff)])
+            if is_flat(table):
+                toks.append("sz=%d" % (longest + 1 + rng.randint(0, 4)))
+                st["tight_size"] += 1
+            else:
+                toks.append("sz=%d" % min(len(buf), len(eff) + needs[tid] + 1 + SPARE + rng.randint(0, 8)))
+        # the reports left open are dropped from both outputs
+        toks.append("opt=" + (",".join(pair_key(ix, a) for ix, a in opn) or "-"))
+        st["open_reports"] += len(opn)
         st["cases"] += 1
         st["per_tree"][str(tid)] = st["per_tree"].get(str(tid), 0) + 1
-        yield "R %d %s %s %s" % (tid, ts, show_obj(obj), hx(buf))
+        yield "R %d %s %s %s %s" % (tid, ts, show_obj(obj), hx(buf), " ".join(toks))
 
 
 def generate(rng, tier, stats):
-    for g in (gen_static(rng, tier, stats), gen_malformed(rng, tier, stats), gen_runtime(rng, tier, stats)):
+    for g in (gen_static(rng, tier, stats), gen_runtime(rng, tier, stats)):
         for op in g:
             yield op
 
